@@ -1,4 +1,5 @@
 import LachesisVerif.Model.Leecher
+import LachesisVerif.Gen.FactsC18
 /-!
 # C18 — Leechers respect flow control and peer removal
 
@@ -415,3 +416,10 @@ theorem D5_old_order_keeps_session :
 
 end base
 end C18
+
+/-! ### Structural expectations (regenerated facts `Gen.FactsC18`)
+The leecher model's `unregister` removes the peer and terminates its session BEFORE the routine
+selects the next session peer. -/
+namespace C18Facts
+theorem unregister_order : Gen.FactsC18.unregisterDeletesBeforeRoutine = true ∧ Gen.FactsC18.unregisterTerminatesBeforeRoutine = true := by decide
+end C18Facts
